@@ -266,7 +266,9 @@ def obligations(tier, seed):
     for version in ("1.0", "1.1"):
         plans = [("key1", ["i0", "i1"], ["r0"]), ("unique2", ["i0", "i1"], []), ("key2", ["i0"], ["r0"]), ("uniqueref2", ["i0"], ["r0"])]
         if not quick:
-            plans += [("key2", ["i0", "i1"], ["r0"]), ("uniqueref2", ["i0", "i1"], ["r0"]), ("key1", ["i0", "i1"], ["r0", "r1"]), ("key1", ["i0", "i1", "i2"], ["r0"])]
+            # (two-field templates with 2 items + 1 reference = 6 symbolic indices did not finish in 3000 s: the two-field rows stay at
+            # 1 item + 1 reference and 2 items + 0 references; the one-field template carries the larger tables)
+            plans += [("key1", ["i0", "i1"], ["r0", "r1"]), ("key1", ["i0", "i1", "i2"], ["r0"]), ("unique2", ["i0", "i1", "i2"], [])]
         for template, items, refs in plans:
             two = template.endswith("2")
             args = []
@@ -275,7 +277,7 @@ def obligations(tier, seed):
                 if two:
                     args.append(["b" + t, "int"])
             out.append({"name": "table/%s/%s/%di%dr" % (version, template, len(items), len(refs)), "fn": "h_table", "pre": "pre_rows", "args": args,
-                        "config": {"template": template, "version": version, "bpool": 3 if quick else 4}, "timeout": 500 if quick else 3000, "twin_timeout": 30,
+                        "config": {"template": template, "version": version, "bpool": 3 if (quick or len(items) + len(refs) > 2) else 4}, "timeout": 500 if quick else 3000, "twin_timeout": 30,
                         "bound": "%d item rows, %d reference rows; field a from %r, b from %r" % (len(items), len(refs), A_POOL, B_POOL)})
         if not quick or version == "1.0":
             out.append({"name": "scoped/%s" % version, "fn": "h_scoped", "pre": "pre_rows",
